@@ -9,6 +9,13 @@ The "finally ended" set is a ghost computed from the run (`endedRun`): the vBuck
 assigned vBucket stream ends for good at most once per session, and only assigned streams end"
 (`EndsOnce`) is a predicate on the start state and the op list.
 
+Since the model keeps the record `endedVbs` in the stream object (a finally ended stream does not answer a later
+`CloseStream` with an `End`), the ghost is related to the real field: under `EndsOnce` they are equal
+(`endedVbs_eq_endedRun`), `EndsOnce` implies the step-wise hypothesis `EndsOk` of `Proofs/LifeLemmas.lean`
+(`endsOk_from_open`), and the exact count `Exact` holds along the run (`exact_from_open`, `session_count_exact`,
+`window_active_zero_run`). Without `EndsOnce` the count is only bounded (`PhA.activeLe`, `window_active_nonpos`;
+witness `window_count_negative_without_EndsOnce`).
+
 The real F9a (a `reopenStream` retry loop that spans a rebalance `Close`) is NOT in this model: a macro
 step re-opens at once. What the model does contain is the decision of `openStream`: a transient end for a
 vBucket without an entry in the offsets map gives up (`reopen_missing_offset_failstop`), which inside a
@@ -75,47 +82,6 @@ theorem active_eq_from_open {s0 : LSt} (hd : s0.dead = false) (ok : TimersOk s0)
 def EndsOnce (s : LSt) (ops : List LOp) : Prop :=
   ∀ n, (endedRun s [] (ops.take n)).Nodup ∧
     ∀ vb ∈ endedRun s [] (ops.take n), vb ∈ vbs (run s (ops.take n)).lo (run s (ops.take n)).hi
-
-theorem filter_ne_length {m : List Nat} {a : Nat} (hm : m.Nodup) (ha : a ∈ m) :
-    (m.filter (fun x => x != a)).length + 1 = m.length := by
-  induction m with
-  | nil => simp at ha
-  | cons x r ih =>
-    simp only [List.nodup_cons] at hm
-    by_cases hx : x = a
-    · subst hx
-      have : r.filter (fun y => y != x) = r := by
-        apply List.filter_eq_self.2
-        intro y hy
-        have : y ≠ x := fun e => hm.1 (e ▸ hy)
-        simpa using this
-      simp [this]
-    · have har : a ∈ r := by
-        rcases List.mem_cons.1 ha with e | e
-        · exact absurd e.symm hx
-        · exact e
-      simp [hx, ih hm.2 har]
-
-/-- distinct elements `e` of a duplicate-free list `l`: the rest has `|l| − |e|` elements -/
-theorem filter_notin_length (e l : List Nat) (he : e.Nodup) (hsub : ∀ x ∈ e, x ∈ l) (hl : l.Nodup) :
-    (l.filter (fun x => !e.contains x)).length + e.length = l.length := by
-  induction e generalizing l with
-  | nil => simp
-  | cons a r ih =>
-    simp only [List.nodup_cons] at he
-    have hrl : ∀ x ∈ r, x ∈ l := fun x hx => hsub x (List.mem_cons_of_mem _ hx)
-    have ih' := ih l he.2 hrl hl
-    have hnd : (l.filter (fun x => !r.contains x)).Nodup := List.Nodup.sublist List.filter_sublist hl
-    have ha : a ∈ l.filter (fun x => !r.contains x) := by
-      simp [List.mem_filter, hsub a List.mem_cons_self, he.1]
-    have := filter_ne_length hnd ha
-    have e1 : l.filter (fun x => !(a :: r).contains x) = (l.filter (fun x => !r.contains x)).filter (fun x => x != a) := by
-      rw [List.filter_filter]
-      apply List.filter_congr
-      intro x _
-      by_cases hxa : x = a <;> simp [hxa]
-    rw [e1, List.length_cons]
-    omega
 
 /-- under the server hypothesis the active count is the number of assigned vBuckets not yet finally ended -/
 theorem active_counts_unfinished {s : LSt} {e : List Nat} (g : ActiveEq s e) (hd : s.dead = false)
@@ -436,6 +402,172 @@ theorem transient_reopens_from_settled {s0 : LSt} (hd : s0.dead = false) (ok : T
   have hh := position_is_last_settled (hist := []) (.pre hd ok hpre) hok
     (fun _ ho => by rw [hpre.isOpen] at ho; cases ho) hds hos vb q hq
   exact ⟨q, by simpa using hh, hstep⟩
+
+/-! ## the ghost is the record `endedVbs` of the stream object; the exact count under `EndsOnce` -/
+
+/-- the ghost list with its invariants at every prefix, from an arbitrary start value (`EndsOnce` = from `[]`) -/
+def GhostOk (s : LSt) (e : List Nat) (ops : List LOp) : Prop :=
+  ∀ n, (endedRun s e (ops.take n)).Nodup ∧
+    ∀ vb ∈ endedRun s e (ops.take n), vb ∈ vbs (run s (ops.take n)).lo (run s (ops.take n)).hi
+
+theorem GhostOk.head {s : LSt} {e : List Nat} {op : LOp} {r : List LOp} (h : GhostOk s e (op :: r)) :
+    (endedStep s e op).Nodup ∧ ∀ vb ∈ endedStep s e op, vb ∈ vbs (step s op).1.lo (step s op).1.hi := h 1
+
+theorem GhostOk.tail {s : LSt} {e : List Nat} {op : LOp} {r : List LOp} (h : GhostOk s e (op :: r)) :
+    GhostOk (step s op).1 (endedStep s e op) r := fun n => h (n + 1)
+
+theorem EndsOnce.ghostOk {s : LSt} {ops : List LOp} (h : EndsOnce s ops) : GhostOk s [] ops := h
+
+/-- one step: as long as the ghost stays duplicate-free it equals the record kept by `listenEnd` -/
+theorem ended_eq_step {s : LSt} {e : List Nat} (op : LOp) (h : Inv s) (hl : s.endedVbs = e)
+    (hn : (endedStep s e op).Nodup) : (step s op).1.endedVbs = endedStep s e op := by
+  rcases step_frame op h with ⟨n, _, _, he⟩ | ⟨m, he⟩
+  · rw [he]
+    unfold endedStep at hn ⊢
+    rw [if_neg n] at hn ⊢
+    cases op with
+    | endEv vb c =>
+      simp only [endedOf]
+      split
+      · rename_i hc
+        simp only [hc, if_true] at hn
+        have hnew : vb ∉ e := by
+          intro hm
+          have := (List.nodup_append.1 hn).2.2 vb hm vb (by simp)
+          exact this rfl
+        rw [hl, endedAdd_of_not_mem hnew]
+      · exact hl
+    | _ => exact hl
+  · rw [he]
+    unfold endedStep
+    rw [if_pos m]
+
+/-- **the ghost is the real field**: along every run on which the ghost stays duplicate-free (`EndsOnce`), the
+    record `endedVbs` of the stream object IS the ghost list `endedRun` -/
+theorem ended_eq_run {s : LSt} {e : List Nat} {ops : List LOp} (h : Inv s) (hok : OpsOk s ops) (hl : s.endedVbs = e)
+    (hg : GhostOk s e ops) : (run s ops).endedVbs = endedRun s e ops := by
+  induction ops generalizing s e with
+  | nil => exact hl
+  | cons op r ih =>
+    rw [run_cons]
+    exact ih (step_good op h hok.1).inv hok.2 (ended_eq_step op h hl hg.head.1) hg.tail
+
+/-- `EndsOnce` (ghost form) gives the server hypothesis in the form the count invariant uses -/
+theorem endsOk_of_ghost {s : LSt} {e : List Nat} {ops : List LOp} (h : Inv s) (hok : OpsOk s ops)
+    (hl : s.endedVbs = e) (hg : GhostOk s e ops) : EndsOk s ops := by
+  induction ops generalizing s e with
+  | nil => trivial
+  | cons op r ih =>
+    refine ⟨?_, ih (step_good op h hok.1).inv hok.2 (ended_eq_step op h hl hg.head.1) hg.tail⟩
+    rcases step_frame op h with ⟨n, hlo, hhi, _⟩ | ⟨m, _⟩
+    · left
+      intro vb c hop hc
+      subst hop
+      obtain ⟨hnd, hsub⟩ := hg.head
+      have e1 : endedStep s e (.endEv vb c) = e ++ [vb] := by
+        unfold endedStep
+        rw [if_neg n]
+        simp only [hc, if_true]
+      rw [e1] at hnd hsub
+      constructor
+      · have := hsub vb (by simp)
+        rw [hlo, hhi] at this
+        exact this
+      · rw [hl]
+        intro hm
+        exact (List.nodup_append.1 hnd).2.2 vb hm vb (by simp) rfl
+    · exact Or.inr m
+
+theorem open_step_fresh {s0 : LSt} (hd : s0.dead = false) (ok : TimersOk s0) (hpre : PhPre s0) :
+    LObs.cb .ASS ∈ (step s0 .open).2 ∧ (step s0 .open).1.endedVbs = [] ∧ endedStep s0 [] .open = [] := by
+  have hass : LObs.cb .ASS ∈ (step s0 .open).2 := by
+    have hig : ignored s0 .open = false := by simp [ignored, hpre.stop]
+    rw [step_of_live hd hig]
+    exact List.mem_append_left _ (by simp [stepCore, doOpen])
+  refine ⟨hass, ?_, by simp [endedStep, hass]⟩
+  rcases step_frame .open (.pre hd ok hpre) with ⟨n, _⟩ | ⟨_, he⟩
+  · exact absurd hass n
+  · exact he
+
+/-- `Open`, then any op list, under `EndsOnce`: the record is the ghost -/
+theorem endedVbs_eq_endedRun {s0 : LSt} (hd : s0.dead = false) (ok : TimersOk s0) (hpre : PhPre s0)
+    (ops : List LOp) (hno : NoOpen ops) (hsrv : EndsOnce s0 (LOp.open :: ops)) :
+    (run s0 (LOp.open :: ops)).endedVbs = endedRun s0 [] (LOp.open :: ops) := by
+  obtain ⟨_, h1, h2⟩ := open_step_fresh hd ok hpre
+  have hok := OpsOk_open hpre.everOpened hno
+  have hg := hsrv.ghostOk.tail
+  rw [h2] at hg
+  rw [run_cons]
+  show _ = endedRun (step s0 .open).1 (endedStep s0 [] .open) ops
+  rw [h2]
+  exact ended_eq_run (step_good .open (.pre hd ok hpre) hok.1).inv hok.2 h1 hg
+
+theorem endsOk_from_open {s0 : LSt} (hd : s0.dead = false) (ok : TimersOk s0) (hpre : PhPre s0)
+    (ops : List LOp) (hno : NoOpen ops) (hsrv : EndsOnce s0 (LOp.open :: ops)) : EndsOk s0 (LOp.open :: ops) := by
+  obtain ⟨_, h1, h2⟩ := open_step_fresh hd ok hpre
+  have hok := OpsOk_open hpre.everOpened hno
+  have hg := hsrv.ghostOk.tail
+  rw [h2] at hg
+  exact ⟨Or.inl (EndFits.of_not_end (by intro vb c h; cases h)),
+    endsOk_of_ghost (step_good .open (.pre hd ok hpre) hok.1).inv hok.2 h1 hg⟩
+
+/-- **the exact count along every run that satisfies `EndsOnce`** (`Open`, then any op list) -/
+theorem exact_from_open {s0 : LSt} (hd : s0.dead = false) (ok : TimersOk s0) (hpre : PhPre s0)
+    (ops : List LOp) (hno : NoOpen ops) (hsrv : EndsOnce s0 (LOp.open :: ops)) : Exact (run s0 (LOp.open :: ops)) :=
+  run_exact (.pre hd ok hpre) (OpsOk_open hpre.everOpened hno) hpre.exact (endsOk_from_open hd ok hpre ops hno hsrv)
+
+/-- **C12 `active_eq`, in terms of the stream object alone.** `Open`, then any op list, under `EndsOnce`: whenever the
+    stream is open, the record `endedVbs` is the ghost, it is duplicate-free and contains assigned vBuckets only, and
+    the active count is `|vbs lo hi| − |endedVbs|` = the number of assigned vBuckets not in `endedVbs`. -/
+theorem session_count_exact {s0 : LSt} (hd : s0.dead = false) (ok : TimersOk s0) (hpre : PhPre s0)
+    (ops : List LOp) (hno : NoOpen ops) (hsrv : EndsOnce s0 (LOp.open :: ops)) :
+    let s := run s0 (LOp.open :: ops)
+    s.dead = false → s.isOpen = true →
+      s.endedVbs = endedRun s0 [] (LOp.open :: ops) ∧ s.endedVbs.Nodup ∧ (∀ vb ∈ s.endedVbs, vb ∈ vbs s.lo s.hi) ∧
+      s.active = ((vbs s.lo s.hi).length : Int) - (s.endedVbs.length : Int) ∧
+      s.active = (((vbs s.lo s.hi).filter fun vb => !s.endedVbs.contains vb).length : Int) := by
+  intro s hds hos
+  have hx : Exact s := exact_from_open hd ok hpre ops hno hsrv
+  have hA : PhA s := (run_good (.pre hd ok hpre) (OpsOk_open hpre.everOpened hno)).inv.phA hds hos
+  obtain ⟨ha, hsub⟩ := (hx hds).1 hos
+  exact ⟨endedVbs_eq_endedRun hd ok hpre ops hno hsrv, hA.endedNodup, hsub, ha, hA.exact_unfinished hx hds⟩
+
+/-- **`window_active_zero`** (run form). `Open`, then any op list, under `EndsOnce`: in every rebalance window reached
+    the active count is exactly 0: every stream the server still had has answered the close with its `End`. -/
+theorem window_active_zero_run {s0 : LSt} (hd : s0.dead = false) (ok : TimersOk s0) (hpre : PhPre s0)
+    (ops : List LOp) (hno : NoOpen ops) (hsrv : EndsOnce s0 (LOp.open :: ops)) :
+    let s := run s0 (LOp.open :: ops)
+    s.dead = false → s.balancing = true → s.active = 0 := by
+  intro s hds hb
+  have hx : Exact s := exact_from_open hd ok hpre ops hno hsrv
+  have hi : Inv s := (run_good (.pre hd ok hpre) (OpsOk_open hpre.everOpened hno)).inv
+  exact window_active_zero (hi.phB hds hb).1 hx hds
+
+/-- **C12 `stops_iff_all_final`** (stream-object form). Under the exact count, a final end of an assigned vBucket
+    that has not finally ended closes `stopCh` iff with it EVERY assigned vBucket is in the record `endedVbs`. -/
+theorem stops_iff_all_final_exact {s : LSt} (vb : Nat) (c : EndCause) (h : Inv s) (hx : Exact s)
+    (hd : s.dead = false) (ho : s.isOpen = true) (hst : s.stopClosed = false) (hc : c ≠ .transient)
+    (hvb : vb ∈ vbs s.lo s.hi) (hnew : vb ∉ s.endedVbs) :
+    LObs.stop ∈ (step s (.endEv vb c)).2 ↔ ∀ v ∈ vbs s.lo s.hi, v ∈ s.endedVbs ++ [vb] :=
+  stops_iff_all_final vb c h (fun hd' ho' => ((hx hd').1 ho').1) hd ho hst hc (h.phA hd ho).endedNodup
+    ((hx hd).1 ho).2 hvb hnew
+
+/-- non-vacuity: a final end, then a notification – the window is reached with count 0 (the close request of the
+    ended vBucket is answered "no such stream", only the two live streams send an `End`) -/
+example :
+    let s0 : LSt := { memLo := 0, memHi := 2 }
+    let ops : List LOp := [.open, .endEv 1 .final, .notify]
+    (run s0 ops).balancing = true ∧ (run s0 ops).dead = false ∧ (run s0 ops).active = 0 ∧
+    (run s0 ops).endedVbs = [1] ∧ endedRun s0 [] ops = [1] := by decide
+
+/-- **without `EndsOnce`** the exact count fails: a vBucket whose final end is seen twice is counted twice, the
+    window is entered with a negative count (`window_active_nonpos` is all that holds for every run) -/
+theorem window_count_negative_without_EndsOnce :
+    let s0 : LSt := { memLo := 0, memHi := 2 }
+    let ops : List LOp := [.open, .endEv 0 .final, .endEv 0 .final, .notify]
+    (run s0 ops).balancing = true ∧ (run s0 ops).dead = false ∧ (run s0 ops).active = -1 ∧
+    (run s0 ops).endedVbs = [0] ∧ ¬ EndsOnce s0 ops := by
+  refine ⟨by decide, by decide, by decide, by decide, fun h => absurd (h 3).1 (by decide)⟩
 
 /-! ## non-vacuity -/
 
